@@ -21,21 +21,21 @@ NA = {
 }
 
 CHECKS = {
- "C18": dict(engine="schemasim", technique="deterministic simulation: seeded add_table/lookup histories with injected failing registrations, failing lookups and cache evictions; oracles = history-free twin, reference model, fresh schema from final mapping; ddmin-minimised JSON replay",
-   level_text="Seeded exploration of MappingSchema histories (24k quick / 400k thorough runs of 4-40 ops, swarm-configured) with fault injection (failed add_table, unparsable types, ambiguous names, cache eviction at PRNG-chosen points). Every lookup is compared with a history-free twin running the same real code, with a small dict model of the registrations, and with a MappingSchema freshly built from the SUT's final mapping. A clean batch is evidence, not proof; sensitivity is shown by the three defects it found on the pinned tree and by the mutants in mutants/.",
+ "C18": dict(engine="schemasim", technique="deterministic simulation: seeded add_table/lookup histories with injected failing registrations, failing lookups, cache evictions and callers mutating the lists they were handed; oracles = history-free twin, reference model, fresh schema from final mapping; ddmin-minimised JSON replay",
+   level_text="Seeded exploration of MappingSchema histories (24k quick / 400k thorough runs of 4-40 ops, swarm-configured) with fault injection (failed add_table, unparsable types, ambiguous names, cache eviction at PRNG-chosen points, in-place edits by the caller of the list column_names returned). Every lookup is compared with a history-free twin running the same real code, with a small dict model of the registrations, and with a MappingSchema freshly built from the SUT's final mapping. A clean batch is evidence, not proof; sensitivity is shown by the four defects it found on the pinned tree and by the mutants in mutants/.",
    design_ref="DESIGN.md 3.3", note="Trusts the dialect's identifier normalisation (used by the O2 model only), CPython, and the harness' JSON op interpreter. Universe is small by design (2 catalogs x 2 dbs x 3 tables x 3 columns)."),
  "C08": dict(engine="treesim", technique="deterministic simulation: seeded edit histories over a forest of syntax trees interleaving cache-populating ops with mutations, producers and optimizer rules, with injected aborted callbacks / failing rules / unparsable builder arguments; link, no-sharing, hash-recomputation, equality and frame invariants after every step; ddmin-minimised JSON replay",
-   level_text="Seeded exploration (9.6k quick / 160k thorough histories of 8-90 ops, swarm-configured op mix) of the per-node memo (_hash) and back-link state under public tree operations: set/append/replace/pop/transform/replace_children/replace_tree/set_kwargs/builders(copy=False)/comments, parse of ~12k corpus statements in their dialects, copy/deepcopy/serde/pickle, all 14 optimizer rules applied in place to parser-reachable trees, diff on subtrees. After EVERY step: I1 child records exactly its parent/arg_key/index, I2 no node stored twice (within/across trees/pool), I3 every cached hash equals the real hash function on a cache-free clone, I4 tree == clone and SQL-changed => != snapshot, I5 other trees keep a strict identity fingerprint. Faults: callback abort at the k-th node, rule raising mid-rewrite, ParseError in builders. Evidence, not proof; sensitivity shown by the 9 defects found on the pinned tree and by mutants/.",
+   level_text="Seeded exploration (9.6k quick / 160k thorough histories of 8-90 ops, swarm-configured op mix) of the per-node memo (_hash) and back-link state under public tree operations: set/append/replace/pop/transform/replace_children/replace_tree/set_kwargs/builders(copy=False)/comments/meta, in-place wrapping through holder.set(key, Wrapper(this=child)) and its undo, parse of ~12k corpus statements in their dialects, copy/deepcopy/serde/pickle, all 14 optimizer rules applied in place to parser-reachable trees (30% of the runs are optimizer-shaped: a seeded query grammar with joins of every kind, multi-key join conditions, colliding alias names, correlated subqueries, DNF filters; qualify, then rules in order or fanned out), diff on subtrees. After EVERY step: I1 child records exactly its parent/arg_key/index, I2 no node stored twice (within/across trees/pool), I3 every cached hash equals the real hash function on a cache-free clone, I4 tree == clone and SQL-changed => != snapshot, I5 other trees keep a strict identity fingerprint. Faults: callback abort at the k-th node, rule raising mid-rewrite, ParseError in builders. Evidence, not proof; sensitivity shown by the 20-odd defects found on the pinned tree and by mutants/.",
    design_ref="DESIGN.md 3.4", note="Trusts CPython, the harness' op interpreter and clone(); optimizer rules are applied only to trees that round-trip through the parser in the dialect given (rules promise nothing for malformed trees); equality oracle is one-directional (see DESIGN)."),
- "C09": dict(engine="treesim", technique="deterministic simulation: same tree-forest machine, op mix dominated by calls documented not to mutate (sql x 33 dialects x options, optimize, qualify/annotate of a copy, diff, lineage, transform/builders with copy=True, expand, replace_tables, replace_placeholders, operators, copy/deepcopy) interleaved with edits; strict identity fingerprint + SQL of every argument before/after, also when the call raises; injected stack exhaustion, callback aborts, ParseErrors; ddmin replay",
-   level_text="Seeded exploration (9.6k quick / 160k thorough histories) in which every non-mutating call is bracketed by a strict fingerprint (node identities, parent/arg_key/index, scalars, comments, types, meta) and the base-dialect SQL of each argument tree, including when the call fails with UnsupportedError/OptimizeError/ParseError or with a RecursionError injected at a PRNG-chosen stack depth; copies must be equal, structurally identical and node-disjoint, and later edits of either side must leave the other's fingerprint unchanged (frame condition). Evidence, not proof.",
+ "C09": dict(engine="treesim", technique="deterministic simulation: same tree-forest machine, op mix dominated by calls documented not to mutate (sql x 33 dialects x options, optimize, qualify/annotate of a copy, diff, lineage, transform/builders with copy=True - every public method that has a copy parameter, found by reflection, and the builder functions documented to copy their Expression arguments, called with live nodes -, generation started at every node of a tree, expand (string, tree and callable sources), replace_tables, replace_placeholders, operators, copy/deepcopy) interleaved with edits; strict identity fingerprint + SQL of every argument before/after, also when the call raises; injected stack exhaustion, callback aborts, ParseErrors; ddmin replay",
+   level_text="Seeded exploration (9.6k quick / 160k thorough histories) in which every non-mutating call is bracketed by a strict fingerprint (node identities, parent/arg_key/index, scalars, comments, types, meta) and the base-dialect SQL of each argument tree, including when the call fails with UnsupportedError/OptimizeError/ParseError or with a RecursionError injected at a PRNG-chosen stack depth; copies and builder results must be equal (copies), structurally identical, node-disjoint and share no mutable object (meta dicts and the values in them, comment lists, type annotations) with the tree they were made from, and later edits of either side must leave the other's fingerprint unchanged (frame condition). Evidence, not proof.",
    design_ref="DESIGN.md 3.5", note="Trusts CPython and the harness; trees come from the corpus (fixtures + ~12k dialect statements + built-ins), not from an exhaustive grammar; cache state alone is not part of the C09 fingerprint (stale caches are C08's I3)."),
  "C15": dict(engine="histsim", technique="deterministic simulation of process lifetimes: fork-server templates per PYTHONHASHSEED (ASLR off), generated call histories over fresh and reused Tokenizer/Parser/Generator/Dialect/MappingSchema instances from a cold interpreter, with failing earlier steps, injected stack exhaustion, gc and address-space perturbation; oracle = the same call alone in a cold process under two hash seeds; ddmin replay",
    level_text="Seeded exploration (1.2k quick / 12k thorough process lifetimes of 3-60 calls each, 4 / 32 hash seeds) from a cold interpreter (no dialect or rule module loaded), so dialect import order, metaclass side effects and first-use cache fills are part of the history; 40% of the histories replay a focus group (one reused Parser/Generator/Tokenizer configuration fed with statements that touch the same per-instance state). Every step is compared byte-for-byte with a reference table computed per call signature ALONE in its own cold child, under PYTHONHASHSEED 0 and 4242 (which must agree). Faults: ParseError/TokenError/UnsupportedError/OptimizeError in earlier steps on components reused afterwards (incl. statements cut short at a token boundary), generation aborted at a PRNG-chosen node of a reused generator, RecursionError injected at a PRNG-chosen margin, gc.collect/disable, garbage pre-allocation shifting object addresses. Words that a history adds to class-level tables of the base classes are turned into output probes (leak-probe oracle). Evidence, not proof.",
-   design_ref="DESIGN.md 3.2", note="Exception messages are not compared (classes are); the AST-diff op is excluded as the property excludes it; references and histories share the same code, so a defect that changes every execution identically is invisible (that is C01..C14's subject, not C15's)."),
- "C19": dict(engine="threadsim", technique="deterministic thread-schedule simulation: real threads under baton passing with sys.settrace line/call events of sqlglot and importlib frames as pre-emption points, cooperative lock seam, cold-start fork template; seeded strategies (random-walk gaps, PCT depth 1-3, cold-code bias, serial), gc and starvation faults; oracles = run-alone reference, no-raise, exactly-once loading, post-run health, deadlock/step-budget liveness; recorded schedule as replay file, ddmin over switch points",
-   level_text="Seeded search over interleavings (1.4k quick / 14k thorough runs of 2-8 threads x 1-4 calls, ~0.45 G trace events per quick batch). Half of the runs start from a cold interpreter (very first use of dialects, optimizer sub-modules, generator dispatch caches), half are warm with gaps of 3-1000 trace events, many of them same-call contention (all threads run one call), which exposes per-call scratch state kept at class or module level. Exactly one thread runs at a time; the simulator decides every hand-over from one PRNG value and records it, so a run is replayable from its schedule and minimisable (typical minimal schedule: 1-3 pre-emptions). Threads that would block on a lock are parked in the simulator, so lock-order deadlocks are detected as 'all live threads parked' with the stacks. Evidence, not proof; found 4 genuine defects on the pinned tree (race on the dialect registry, ABBA deadlock between the dialects import lock and importlib's module lock, Athena class usable before its module finished importing, CONNECT BY editing a class-level parser table).",
-   design_ref="DESIGN.md 3.1", note="Pre-emption granularity is source lines / function entry with C-level operations atomic (GIL semantics); locks are stubbed by cooperative wrappers; CPython's global import lock is never pre-empted; pure-Python package only."),
+   design_ref="DESIGN.md 3.2", note="Outcomes of failing calls are the exception class, the structured ParseError.errors (description, position, context excerpts) and the message text of sqlglot's own errors; the AST-diff op is excluded as the property excludes it; references and histories share the same code, so a defect that changes every execution identically is invisible (that is C01..C14's subject, not C15's)."),
+ "C19": dict(engine="threadsim", technique="deterministic thread-schedule simulation: real threads under baton passing with sys.settrace line/call events of sqlglot's own frames as pre-emption points (importlib atomic between its lock operations), cooperative lock seam, cold-start fork template; seeded strategies (random-walk gaps, PCT depth 1-3, cold-code bias, publication bias, serial), a systematic per-dialect / per-entry-point sweep in every batch, gc and starvation faults; oracles = run-alone reference, no-raise, exactly-once loading, post-run health, deadlock/step-budget liveness; recorded schedule as replay file, ddmin over switch points",
+   level_text="Seeded search over interleavings (1.2k random + 229 systematic runs quick / 14k + 690 thorough, 2-8 threads x 1-4 calls, ~0.6 G trace events per quick batch). The systematic part gives EVERY dialect two cold first-use runs scheduled by publication bias (hand over the moment a registry grows) and three write-focus contention runs on its generator, and every small public entry point (time formats, JSON paths, identifier normalisation, table/type parsing, tokenizing, dialect settings, shared-schema lookups) eight micro-contention runs in which one thread streams thousands of distinct arguments while two ask for popular ones. Half of the runs start from a cold interpreter (very first use of dialects, optimizer sub-modules, generator dispatch caches), half are warm with gaps of 3-1000 trace events, many of them same-call contention (all threads run one call), which exposes per-call scratch state kept at class or module level. Exactly one thread runs at a time; the simulator decides every hand-over from one PRNG value and records it, so a run is replayable from its schedule and minimisable (typical minimal schedule: 1-3 pre-emptions). Threads that would block on a lock are parked in the simulator, so lock-order deadlocks are detected as 'all live threads parked' with the stacks. Evidence, not proof; found 5 genuine defects on the pinned tree (race on the dialect registry, ABBA deadlock between the dialects import lock and importlib's module lock, Athena class usable before its module finished importing, CONNECT BY editing a class-level parser table, Dialect.classes never completing its lazy loading).",
+   design_ref="DESIGN.md 3.1", note="Pre-emption granularity is source lines / function entry with C-level operations atomic (GIL semantics); locks are stubbed by cooperative wrappers; CPython's import machinery is trusted and atomic between its lock operations; pure-Python package only."),
 }
 
 def main():
